@@ -1134,6 +1134,41 @@ def split_tuple_lets(root):
     return map_tree(root, fn)
 
 
+def split_struct_lets(root):
+    """`let Struct(a, b, c) = *p;` / `let Struct { x, y } = v;` on a place (irrefutable: no `else`) -> `let a = p.0; let b = p.1; ...`
+    (Copy fields read from a place; the order of the reads is immaterial)."""
+    def fields_of(p_):
+        if p_.get("k") == "pts":
+            return [(str(i), q) for i, q in enumerate(p_.get("pats", []))]
+        if p_.get("k") == "pstruct" and not p_.get("rest", False) or p_.get("k") == "pstruct":
+            return [(f["name"], f["p"]) for f in p_.get("fields", [])]
+        return None
+
+    def fn(n):
+        if n.get("k") != "block":
+            return n
+        out, changed = [], False
+        for s in n.get("stmts", []):
+            if isinstance(s, dict) and s.get("k") == "let" and "els" not in s and isinstance(s.get("init"), dict) and s["pat"].get("k") in ("pts", "pstruct"):
+                fs = fields_of(s["pat"])
+                init = hir.simp(s["init"])
+                base = init
+                while isinstance(base, dict) and base.get("k") == "un" and base.get("op") == "Deref" and "callee" not in base:
+                    base = hir.simp(base["e"])
+                if fs and place_like(init) and base.get("k") in ("local", "field") and \
+                        all(q.get("k") in ("pbind", "pwild") and "sub" not in q and "Ref" not in str(q.get("mode", "")) for _, q in fs):
+                    for name, q in fs:
+                        if q.get("k") == "pwild":
+                            continue
+                        out.append({"k": "let", "pat": q, "init": {"k": "field", "name": name, "e": copy.deepcopy(init), "ln": s.get("ln"), "ty": q.get("ty")},
+                                    "ln": s.get("ln"), "norm": "struct-let"})
+                    changed = True
+                    continue
+            out.append(s)
+        return dict(n, stmts=out) if changed else n
+    return map_tree(root, fn)
+
+
 def untag(root, params):
     """A helper local that was renamed `x~N` because the caller had an `x` gets its name back when that `x` is gone (aliased away,
     substituted) — names then do not depend on whether the code sits in a helper."""
@@ -1578,6 +1613,7 @@ def normalise_crate(name, crate):
         h = map_tree(h, _or_split)
         h = map_tree(h, _mem_replace)
         h = split_tuple_lets(h)
+        h = split_struct_lets(h)
         h = cast_to_uses(h)
         h = alias(h, b.get("params", []))
         h = subst_int_lets(h)
